@@ -48,8 +48,13 @@ func (st *State) intrinsic(g *G, fr *Frame, name string, fn *ssa.Function, args 
 		st.draws = append(st.draws, Draw{Name: constStr(args[0]), Kind: "str", Term: v.S})
 		return v, false
 	case "StrMax":
-		v := st.freshVar(constStr(args[0]), SStr)
-		st.assume(Cmp("<=", StrLen(v), args[1].(*Term), true))
+		var v *Term
+		if st.eng.Cfg.BVStr {
+			v = st.freshBStr(st.freshName(constStr(args[0])), int(args[1].(*Term).U))
+		} else {
+			v = st.freshVar(constStr(args[0]), SStr)
+			st.assume(Cmp("<=", StrLen(v), args[1].(*Term), true))
+		}
 		st.draws = append(st.draws, Draw{Name: constStr(args[0]), Kind: "str", Term: v.S})
 		return v, false
 	case "Bytes":
